@@ -273,6 +273,10 @@ fn items(tcx: TyCtxt<'_>) -> J {
         j.set("file", J::s(span_file(tcx, item.span)));
         j.set("sp", span_json(tcx, item.span));
         j.set("exp", J::Bool(item.span.from_expansion()));
+        j.set("exp_local", J::Bool(macro_is_local(item.span)));
+        if let Some(m) = macro_name(item.span) {
+            j.set("mac", J::s(m));
+        }
         match &item.kind {
             rustc_hir::ItemKind::Impl(imp) => {
                 j.set("kind", J::s("impl"));
